@@ -48,7 +48,7 @@ ASSUMPTIONS = [
 ]
 TRUSTED_BASE = ['vf/sim/fsfakes.py (protocol fakes)', 'aiohttp.StreamReader', 'local filesystem of the sandbox']
 SHARDS = {'quick': 2, 'thorough': 16}
-TIMEOUT = {'quick': 600, 'thorough': 1800}
+TIMEOUT = {'quick': 900, 'thorough': 1800}
 FLOORS = {
     'backends_covered': 4,
     'probes_local': 2000, 'probes_gcs': 2000, 'probes_s3': 2000, 'probes_azure': 2000,
